@@ -26,6 +26,50 @@ func checkC12(r *Run) {
 	r6 := r.Rule("R-C12-6", "QoS 0 publish never produces a retry handle")
 	r7 := r.Rule("R-C12-7", "Retry re-queues exactly the failed entry's continuation followed by the unattempted tail")
 	r8 := r.Rule("R-C12-8", "the DUP bit on the wire is Message.Dup for every QoS: PUBLISH header = 0x30 | retain | qos | (Dup ? 0x08), the DUP contribution not nested in a QoS arm")
+	r9 := r.Rule("R-C12-9", "PUBREL is written only by the PUBREL stage of the QoS 2 publish (whose every later handle is PUBREL-stage): a PUBREL emitted anywhere else can be followed by a PUBLISH-stage handle re-sending PUBLISH")
+	{
+		stageWrites := map[ssa.Instruction]bool{}
+		pubTop := c.Func("publishImpl")
+		la := c.locks()
+		inStage := func(f *ssa.Function) bool {
+			top := enclosingTop(f)
+			if top == pubTop {
+				return true
+			}
+			n := 0
+			for _, site := range la.callers[top] {
+				n++
+				if ct := enclosingTop(site.Parent()); ct != pubTop && ct != top {
+					return false
+				}
+			}
+			return n > 0
+		}
+		for _, s := range c.cachedSites() {
+			if s.Kind == "pubrel" && s.Write != nil && inStage(s.F) {
+				stageWrites[s.Write] = true
+			}
+		}
+		n := 0
+		for _, f := range c.Funcs {
+			eachInstr(f, func(in ssa.Instruction) {
+				pt, _, ok := c.writeOf(in)
+				if !ok || pt != "pktPubRel" {
+					return
+				}
+				n++
+				key := FuncName(f) + "/write-PUBREL"
+				if stageWrites[in] {
+					r9.OK(key, in.Pos(), "the PUBREL stage of the QoS 2 publish")
+				} else {
+					r9.Bad(key, in.Pos(), "PUBREL is written in %s, outside the PUBREL stage of publishImpl: the sender's stage bookkeeping does not know about it, so a retry handle of the PUBLISH stage can still re-send PUBLISH after this PUBREL", FuncName(f))
+				}
+			})
+		}
+		if n == 0 {
+			r9.Lost("write-PUBREL", "no PUBREL write found")
+		}
+	}
 	r1.Floor(1)
 	r3.Floor(2)
 	r5.Floor(2)
@@ -49,6 +93,69 @@ func checkC12(r *Run) {
 	c.ruleHandleReissues(r4, uses, "no-capture-checks")
 	c.ruleRetryRequeue(r7, nil, "multiset")
 
+	pub := c.ruleMessageStores(r1, r2, r3)
+	if pub == nil {
+		return
+	}
+	// --- call sites of publishImpl
+	for _, f := range c.Funcs {
+		eachInstr(f, func(in ssa.Instruction) {
+			call, ok := in.(*ssa.Call)
+			if !ok || c.StaticCalleeOf(&call.Call) != pub {
+				return
+			}
+			key := FuncName(f) + "/call-publishImpl"
+			if len(call.Call.Args) < 4 {
+				r3.Undecided(key, in.Pos(), "unexpected arity")
+				return
+			}
+			b, isK := constBool(call.Call.Args[3])
+			switch {
+			case f == c.Method("BaseClient", "Publish"):
+				if isK && !b {
+					r3.OK(key, in.Pos(), "first transmission passes dup=false")
+				} else {
+					r3.Bad(key, in.Pos(), "BaseClient.Publish must pass dup=false")
+				}
+			case f.Parent() == pub:
+				if isK && b {
+					r3.OK(key, in.Pos(), "retry handle passes dup=true")
+				} else {
+					r3.Bad(key, in.Pos(), "the retry handle must pass dup=true")
+				}
+			case isK && !b:
+				// any other caller: a first transmission (e.g. the retrying client issuing a request directly) —
+				// legitimate as long as it is not one of publishImpl's own retry handles
+				r3.OK(key, in.Pos(), "first transmission from %s passes dup=false", FuncName(f))
+			default:
+				r3.Bad(key, in.Pos(), "%s calls %s with a DUP flag that is not the constant false of a first transmission", FuncName(f), FuncName(pub))
+			}
+		})
+	}
+}
+
+// positiveControlMessageStore: the predicate used above recognises `m.Topic = x` on a parameter m.
+// (The control lives in the checker: a synthetic classification of a FieldAddr on a Parameter.)
+func (c *Ctx) positiveControlMessageStore() bool {
+	// publishImpl itself contains `message.Dup = dup`, a store to a non-fresh Message: the generic detector must see it.
+	pub := c.Func("publishImpl")
+	if pub == nil {
+		return true
+	}
+	found := false
+	eachInstr(pub, func(in ssa.Instruction) {
+		if st, ok := in.(*ssa.Store); ok {
+			if fa, ok := st.Addr.(*ssa.FieldAddr); ok && typeName(fa.X.Type()) == "Message" && !c.freshBase(fa) {
+				found = true
+			}
+		}
+	})
+	return found
+}
+
+// ruleMessageStores: every store to a field of a caller-visible Message / Subscription in the package (R-C12-1/2/3; R-C15-5
+// uses the Message.ID part). Returns the publish implementation.
+func (c *Ctx) ruleMessageStores(r1, r2, r3 *RuleRep) *ssa.Function {
 	pub := c.Func("publishImpl")
 	if pub == nil {
 		if m := c.Method("BaseClient", "Publish"); m != nil {
@@ -61,7 +168,7 @@ func checkC12(r *Run) {
 	}
 	if pub == nil {
 		r1.Lost("publishImpl", "publish implementation not found")
-		return
+		return nil
 	}
 	newID := c.Method("BaseClient", "newID")
 	var msgParam, dupParam *ssa.Parameter
@@ -195,58 +302,5 @@ func checkC12(r *Run) {
 	if !c.positiveControlMessageStore() {
 		r2.Undecided("positive-control", pub.Pos(), "the store detector did not fire on the built-in positive example")
 	}
-	// --- call sites of publishImpl
-	for _, f := range c.Funcs {
-		eachInstr(f, func(in ssa.Instruction) {
-			call, ok := in.(*ssa.Call)
-			if !ok || c.StaticCalleeOf(&call.Call) != pub {
-				return
-			}
-			key := FuncName(f) + "/call-publishImpl"
-			if len(call.Call.Args) < 4 {
-				r3.Undecided(key, in.Pos(), "unexpected arity")
-				return
-			}
-			b, isK := constBool(call.Call.Args[3])
-			switch {
-			case f == c.Method("BaseClient", "Publish"):
-				if isK && !b {
-					r3.OK(key, in.Pos(), "first transmission passes dup=false")
-				} else {
-					r3.Bad(key, in.Pos(), "BaseClient.Publish must pass dup=false")
-				}
-			case f.Parent() == pub:
-				if isK && b {
-					r3.OK(key, in.Pos(), "retry handle passes dup=true")
-				} else {
-					r3.Bad(key, in.Pos(), "the retry handle must pass dup=true")
-				}
-			case isK && !b:
-				// any other caller: a first transmission (e.g. the retrying client issuing a request directly) —
-				// legitimate as long as it is not one of publishImpl's own retry handles
-				r3.OK(key, in.Pos(), "first transmission from %s passes dup=false", FuncName(f))
-			default:
-				r3.Bad(key, in.Pos(), "%s calls %s with a DUP flag that is not the constant false of a first transmission", FuncName(f), FuncName(pub))
-			}
-		})
-	}
-}
-
-// positiveControlMessageStore: the predicate used above recognises `m.Topic = x` on a parameter m.
-// (The control lives in the checker: a synthetic classification of a FieldAddr on a Parameter.)
-func (c *Ctx) positiveControlMessageStore() bool {
-	// publishImpl itself contains `message.Dup = dup`, a store to a non-fresh Message: the generic detector must see it.
-	pub := c.Func("publishImpl")
-	if pub == nil {
-		return true
-	}
-	found := false
-	eachInstr(pub, func(in ssa.Instruction) {
-		if st, ok := in.(*ssa.Store); ok {
-			if fa, ok := st.Addr.(*ssa.FieldAddr); ok && typeName(fa.X.Type()) == "Message" && !c.freshBase(fa) {
-				found = true
-			}
-		}
-	})
-	return found
+	return pub
 }
